@@ -586,7 +586,7 @@ func TestC18(t *testing.T) {
 		Level: "exploration",
 		Rule: "rapid draws a workload: 1-4 entities linked to 1-3 targets, 2-8 reader goroutines, 0-4 helper goroutines, a writer committing 3-25 multi-operation transactions each of which moves the WHOLE database (entity fields, unique value, role, link pattern) from version v to v+1, and 1-4 query templates (by unique value, stale values, anyOf/allOf/count over the set index field, sorted+limited, link set, dotted link symbol, sub-query). Built with -race. " +
 			"Every reader loop iteration opens one View and requires entities, unique index, set index, both link sides and every query (parsed inside the transaction, checked against the reference answer for that version) to show one and the same version, never going backwards; helpers hammer IsReferenceExistsError / IsUniqueIndexDuplicateError / IsErrNotFoundErr on shared and fresh errors, ast.Parse, GetSymbol and ValidateSymbolsArePublic and check the answers. Any race-detector report fails the check. " +
-			"Also: query results are held across read transactions and must not change, helpers run failing read transactions and failing batched transactions, and no read transaction may be left open at the end. " +
+			"Also: query results are held across read transactions and must not change, helpers run failing read transactions and failing batched transactions, and no read transaction may be left open at the end. Also: readers set skip / limit on a query parsed from the empty filter; helpers run failing batched transactions. " +
 			"Non-trivial: some reader observed >= 2 different versions (the writer really interleaved). Distinct by hash of the workload JSON.",
 		Assumptions: []string{"schedules are sampled by the Go scheduler, not enumerated; a race needing one specific preemption can be missed"},
 		Gen:         genC18, Run: runC18,
